@@ -9,9 +9,9 @@ CONSTANTS
   SaleMonths = 2
   Unit = 1
   MonthTicks = 4
-  SaleChains = {1}
+  SaleChains = {1, 2}
   Contracts = {1, 2}
-  MaxOps = 5
+  MaxOps = 4
   MaxNow = 16
 INIT Init2
 NEXT NextR
